@@ -73,6 +73,8 @@ class Sched:
         # saves the hand-over; a run is reproduced by (scenario, fine_seed, controller choices)
         self.fine_seed = fine_seed
         self.fine_p = fine_p
+        self.step_timeout = 10.0
+        self.stuck = False
         self.threads = []
         self.by_real = {}
         self.current = None
@@ -143,7 +145,12 @@ class Sched:
         t.steps += 1
         self.current = t
         t.sem.release()
-        self.ctl.acquire()
+        if not self.ctl.acquire(timeout=self.step_timeout):
+            # the thread neither reached its next yield point nor ended: it is blocked in a REAL primitive (a lock the
+            # scheduler does not control, held by a parked thread).  The run cannot be continued deterministically.
+            self.stuck = True
+            self.halted = True
+            self.events.append(('scheduler-stuck', t.name, kind))
         return rec
 
     def run(self, chooser, max_steps=20000, eager=()):
@@ -152,6 +159,8 @@ class Sched:
         the chooser (their steps commute with everything the scenario observes)."""
         n = 0
         while n < max_steps:
+            if self.stuck:
+                return 'stuck'
             if self.halted:
                 return 'exited'
             en = self.enabled_threads()
@@ -177,9 +186,10 @@ class Sched:
                 t.kill = True
                 self.current = t
                 t.sem.release()
-                self.ctl.acquire()
+                if not self.ctl.acquire(timeout=2.0 if self.stuck else 30.0):
+                    break
         for t in self.threads:
-            t.real.join(timeout=5)
+            t.real.join(timeout=0.2 if self.stuck else 5)
 
 
 # ---------------------------------------------------------------- choosers
